@@ -163,6 +163,7 @@ func (r *runner) step(st Step) bool {
 		iv := time.Duration(r.c.ObsMs) * time.Millisecond
 		r.emit("ObsPre", nil)
 		time.Sleep(5 * iv)
+		t0 := time.Now() // the window [open, close] lies inside [t0, t1]
 		r.mu.Lock()
 		for _, h := range r.hcs {
 			h.win = 0
@@ -170,12 +171,14 @@ func (r *runner) step(st Step) bool {
 		r.obsOpen = true
 		r.emitLocked("ObsBegin", nil)
 		r.mu.Unlock()
-		t0 := time.Now()
 		time.Sleep(20 * iv)
 		r.mu.Lock()
 		r.obsOpen = false
+		r.mu.Unlock()
+		ivs := int((time.Since(t0) + iv - 1) / iv)
+		r.mu.Lock()
 		for _, h := range r.hcs {
-			r.emitLocked("ObsCount", map[string]interface{}{"hc": h.id, "n": h.win, "ivs": int(time.Since(t0) / iv)})
+			r.emitLocked("ObsCount", map[string]interface{}{"hc": h.id, "n": h.win, "ivs": ivs})
 		}
 		r.mu.Unlock()
 	}
